@@ -239,7 +239,8 @@ def run_task(task):
     started = time.time()
     try:
         core.import_dsw()
-        sc = load(prop).SUBCHECKS[sub_idx]
+        sc = [c for c in load(prop).SUBCHECKS if not os.environ.get("VERIF_ONLY")
+              or c.name == os.environ["VERIF_ONLY"]][sub_idx]
         if sc.fuzz is not None:
             run_fuzz(prop, sc, tier, shard, core.mix32(base_seed, prop, sc.name, shard), stats)
         elif sc.enum is not None:
@@ -297,6 +298,9 @@ def main(argv):
         return 2
     print("== %s %s seed=%d dsw=%s" % (prop, tier, base_seed, os.path.dirname(dsw.__file__)))
     subchecks = module.SUBCHECKS
+    only = os.environ.get("VERIF_ONLY")  # development aid: run a single sub-check (never set by registered commands)
+    if only:
+        subchecks = [sc for sc in subchecks if sc.name == only] or subchecks
     violations, errors = [], []
 
     # 1. committed regression replays (seconds-long saved-input tier); they must pass on the repaired tree.
